@@ -197,7 +197,6 @@ def judge_c05(scn, run) -> Tuple[List[Viol], Dict[str, int]]:
                 if d.get("device_state") == "OFF" and d["cls"] in ("SwitcherWaterHeater", "SwitcherPowerPlug"):
                     cnt(c, "probe:off-normalisation")
     v = match_callbacks(run, "C05", c)
-    v = [x for x in v if True]
     return v, c
 
 
